@@ -580,7 +580,7 @@ def m_case(seed, objs, root):
 def cases(tier, rng):
     out = []
     big = tier == 'thorough'
-    ndoc = 600 if big else 150
+    ndoc = 400 if big else 150
     nmut = 12 if big else 6
     # sample PDFs of the repository and their prefixes
     for dp, _, fs in os.walk('/repo/tests/test_files'):
